@@ -69,6 +69,31 @@ def run(report, db, tier):
     try:
         path, term = value_of(S, fi)
     except AnalysisError:
+        # a path that prints the digest by other means (a "fast path"): it
+        # is not compared with the reference term, but one thing is decided
+        # -- text stripped of '0' on the right has lost significant digits
+        for p in S.run(fi):
+            if not p.returns:
+                continue
+            for t in subterms(p.value or ()):
+                if t[0] == 'call' and t[1][0] == 'attr' and \
+                        t[1][2] in ('strip', 'rstrip') and (
+                            not t[2] or any(
+                                is_const(a) and isinstance(a[1], str)
+                                and '0' in a[1] for a in t[2])) and any(
+                            u[0] == 'call' and u[1][0] == 'attr'
+                            and u[1][2] in ('hexdigest', 'hex')
+                            or u[0] == 'op' and u[1] in ('fmt', 'hex')
+                            for u in subterms(t[1][1])):
+                    report.violation(
+                        R2, 'hex:stripped-right', fi.path, p.outcome[2]
+                        if len(p.outcome) > 2 else fi.node, fi.qualname,
+                        'a path returns %s [%s]: .%s() also removes the '
+                        'zeros at the *end* of the hex text, which are '
+                        'significant digits -- a digest ending in 0 is '
+                        'printed too short' % (show(p.value)[:80],
+                                               p.cond_text()[:80], t[1][2]))
+                    return
         # not one term: look for a hand-written signed conversion helper and
         # treat it as a unit of its own
         helper = find_conversion_helper(db, fi)
